@@ -483,6 +483,23 @@ def check_one(pid, tier):
             probe_summary.append({k: pr[k] for k in ("unit", "probes", "refuted", "inconclusive", "wall")})
             for it, cl in pr["not_refuted"]:
                 undec_reasons.append("%s: vacuity probe not refuted at %s (%s): its contract is contradictory" % (r["unit"], it, cl))
+    # thorough tier, leaf-level properties: the Kani twins run on the real crate as an independent cross-check (and of T6)
+    kani_cc = []
+    KSETS = {"C16": ["tlv_roundtrip", "adpu_roundtrip", "llv_roundtrip", "lllv_roundtrip"],
+             "C04": ["adpu_roundtrip"],
+             "C17": ["le_u8_roundtrip", "le_u16_roundtrip", "le_u32_roundtrip", "le_u64_roundtrip", "le_usize_roundtrip", "be_u8_roundtrip", "be_u16_roundtrip",
+                     "be_u32_roundtrip", "be_u64_roundtrip", "be_usize_roundtrip", "tag_default_roundtrip", "tag_be_roundtrip", "bcd_u8_roundtrip", "bcd_u16_roundtrip"],
+             "C01": None}
+    if tier == "thorough" and pid in KSETS:
+        try:
+            sys.path.insert(0, os.path.join(ROOT, "lib"))
+            import kani_twin
+            kani_cc = kani_twin.cross_check(KSETS[pid])
+        except Exception as e:  # noqa
+            undec_reasons.append("kani cross-check could not run: %s" % str(e)[:200])
+        for k in kani_cc:
+            if k["status"] == "error":
+                undec_reasons.append("kani harness %s did not finish: %s" % (k["harness"], str(k.get("detail", ""))[:120]))
     hard = [u for u in undec_reasons if "supporting obligation" not in u]
     if hard:
         return undecided("; ".join(hard)[:600])
@@ -497,6 +514,9 @@ def check_one(pid, tier):
     if not obligations:
         return undecided("no obligation is tagged with this property")
 
+    for k in kani_cc:
+        if k["status"] == "failed":
+            failed.append(("kani", "kani:" + k["harness"], {"msg": "Kani harness %s failed" % k["harness"], "rendered": json.dumps(k)[:3000], "line": 0, "kani": k}))
     # known findings
     open_known = [k for k in known.get("open", []) if k["property"] == pid]
     new_viol = []
@@ -539,6 +559,7 @@ def check_one(pid, tier):
             "exhaustive": False,
             "failures_tagged_with_other_properties": ["%s/%s" % x for x in foreign_fail],
             "reachability_probes": probe_summary,
+            "kani_cross_check": kani_cc,
             "obligations_that_flip_between_solver_configurations": sorted({x for r in results for x in r.get("unstable", [])}),
         },
         "assumptions": cfg.get("assumptions", []),
@@ -558,12 +579,19 @@ def check_one(pid, tier):
                       "note": "Verus gives no counterexample; obligation was in the baseline inventory and now fails"}
             # Kani twin, if one is registered for this obligation
             cex = None
-            try:
-                sys.path.insert(0, os.path.join(ROOT, "lib"))
-                import kani_twin
-                cex = kani_twin.counterexample(pid, u, rid)
-            except Exception as e:  # noqa
-                cex = None
+            if f.get("kani"):
+                # found by the Kani cross-check itself
+                k = f["kani"]
+                if k.get("replay_exit_code") == 1:
+                    cex = {"engine": "kani 0.68 (cbmc) on the real zvt_builder crate", "harness": k["harness"], "harness_domain": k.get("domain"),
+                           "input": k.get("input"), "replay_cmd": k.get("replay_cmd"), "replay_exit_code": 1, "replay_output": k.get("replay_output")}
+            else:
+                try:
+                    sys.path.insert(0, os.path.join(ROOT, "lib"))
+                    import kani_twin
+                    cex = kani_twin.counterexample(pid, u, rid)
+                except Exception as e:  # noqa
+                    cex = None
             tail = " no-failing-input-found"
             if cex:
                 replay["counterexample"] = cex
